@@ -76,6 +76,10 @@ func newSession(r *hx.Run, rng *gen.Rng, id string, w, h int, rgb, su, ew, sync,
 	for _, g := range alphabet {
 		d = append(d, fmt.Sprintf("%s:%d", hx.Hex(g), vx.RenderedWidth(g)))
 	}
+	// clusters the single-line text helpers can put into a cell although they are not in the alphabet
+	for _, g := range []string{"\n", "\r\n", "\t", "…"} {
+		d = append(d, fmt.Sprintf("%s:%d", hx.Hex(g), vx.RenderedWidth(g)))
+	}
 	r.Emit("dict "+strings.Join(d, " "), "-")
 	return s, nil
 }
@@ -227,8 +231,45 @@ func (s *session) drawOps(n int, styles []vaxis.Style) {
 		k := s.rng.Intn(12)
 		if s.sixel && s.rng.Chance(1, 6) {
 			k = 12
+		} else if s.rng.Chance(1, 5) {
+			k = 13 + s.rng.Intn(4)
 		}
 		switch k {
+		case 13, 14, 15:
+			// the other text helpers, through a nested window (offsets may be negative / sizes oversized:
+			// the windows clip)
+			var sb strings.Builder
+			for n := s.rng.Intn(8); n >= 0; n-- {
+				sb.WriteString(gen.Pick(s.rng, alphabet))
+				if s.rng.Chance(1, 6) {
+					sb.WriteString(gen.Pick(s.rng, []string{" ", "\n", "\t"}))
+				}
+			}
+			outer := win.New(s.rng.Range(-1, s.w-1), s.rng.Range(-1, s.h-1), s.rng.Range(-1, s.w+1), s.rng.Range(-1, s.h+1))
+			inner := outer.New(s.rng.Range(-1, 2), s.rng.Range(-1, 1), s.rng.Range(-1, s.w), s.rng.Range(-1, s.h))
+			seg := vaxis.Segment{Text: sb.String(), Style: gen.Pick(s.rng, styles)}
+			switch k {
+			case 13:
+				inner.Wrap(seg)
+				s.r.Count("op-wrap-nested")
+			case 14:
+				inner.Println(s.rng.Range(-1, s.h), seg)
+				s.r.Count("op-println-nested")
+			case 15:
+				inner.PrintTruncate(s.rng.Range(-1, s.h), seg)
+				s.r.Count("op-printtruncate-nested")
+			}
+		case 16:
+			// Window.ShowCursor through a nested window, at an offset inside it (so inside the screen)
+			outer := win.New(s.rng.Intn(s.w), s.rng.Intn(s.h), -1, -1)
+			ow, oh := outer.Size()
+			inner := outer.New(s.rng.Intn(ow), s.rng.Intn(oh), -1, -1)
+			iw, ih := inner.Size()
+			c, rw, st := s.rng.Intn(iw), s.rng.Intn(ih), vaxis.CursorStyle(s.rng.Intn(7))
+			inner.ShowCursor(c, rw, st)
+			ox, oy := inner.Origin()
+			s.r.Emit(fmt.Sprintf("showcursor %d %d %d", ox+c, oy+rw, int(st)), "-")
+			s.r.Count("op-showcursor-nested")
 		case 12:
 			// what Sixel.Draw does to the cells under an image (w x h block of sixel-flagged cells);
 			// later ops / Clear overwrite them = the image is dropped
